@@ -323,6 +323,9 @@ func RunChild(sc *Scenario) *Result {
 	modules.VerifHook = c.hook
 
 	reports := make(chan *modules.ModuleError, 256)
+	if sc.UnbufferedReports {
+		reports = make(chan *modules.ModuleError)
+	}
 	if !sc.NoReports {
 		modules.SetErrorReportingChannel(reports)
 	}
